@@ -577,7 +577,7 @@ func toGoHelper(env *Zlisp, name string, arg Sexp) (Sexp, error) {
 	case *SexpReflect:
 		return SexpNull, fmt.Errorf("ToGoFunction (togo) error: value must be a hash or defmap; we see SexpReflect '%[1]T'", asHash.Val.Interface())
 	default:
-		return SexpNull, fmt.Errorf("ToGoFunction (togo) error: value must be a hash or defmap; we see '%[1]T'/val=%#[1]v", arg)
+		return SexpNull, fmt.Errorf("ToGoFunction (togo) error: value must be a hash or defmap; we see '%T'/val=%s", arg, showForError(arg))
 	case *SexpHash:
 		tn := asHash.TypeName
 		//vv("ToGo: SexpHash for tn='%s', shadowSet='%v'", tn, asHash.ShadowSet)
@@ -1026,8 +1026,8 @@ func SexpToGoStructs(
 				case *SexpSymbol:
 					recordKey = k.name
 				default:
-					fmt.Printf(" skipping field '%#v' which we don't know how to lookup.", pair.Head)
-					panic(fmt.Sprintf("unknown fields disallowed: we didn't recognize '%#v'", pair.Head))
+					fmt.Printf(" skipping field '%s' which we don't know how to lookup.", showForError(pair.Head))
+					panic(fmt.Sprintf("unknown fields disallowed: we didn't recognize '%s'", showForError(pair.Head)))
 					continue
 				}
 				// We've got to match pair.Head to
@@ -1046,7 +1046,7 @@ func SexpToGoStructs(
 					//vv("upperKey = '%v' from recordKey = '%v'; found=%v; det='%#v'", upperKey, recordKey, found, det)
 					if !found {
 						fmt.Printf(" skipping field '%s' in this hash/which we could not find in the JsonTagMap", recordKey)
-						panic(fmt.Sprintf("unknown field '%s' not allowed; could not find in the JsonTagMap. Fieldnames are case sensitive. src.JstonTagMap: '%#v'", recordKey, src.JsonTagMap))
+						panic(fmt.Sprintf("unknown field '%s' not allowed; could not find in the JsonTagMap. Fieldnames are case sensitive. src.JstonTagMap has fields: %v", recordKey, jsonTagMapFieldNames(src.JsonTagMap)))
 						continue
 					}
 				}
@@ -1326,3 +1326,15 @@ func IsExactlySinglePointer(target interface{}) bool {
 }
 
 */
+
+// jsonTagMapFieldNames lists the keys of a JsonTagMap in sorted order,
+// for error messages (the map values are pointers; printing them would
+// put heap addresses into the message).
+func jsonTagMapFieldNames(m map[string]*HashFieldDet) []string {
+	names := make([]string, 0, len(m))
+	for k := range m {
+		names = append(names, k)
+	}
+	sort.Strings(names)
+	return names
+}
